@@ -1,5 +1,76 @@
+(* C40 — Offline deduplication of downsampled chunks keeps every aggregate sample.
+   Property theorems only (proofs: Proofs/C40.v, C40_Chunk.v, C40_Ts.v on top of
+   Lib/Dedup_Refine.v). [merge_group base others] is the model of what
+   dedup.NewChunkSeriesMerger produces for one group of mutually overlapping
+   aggregate chunks (pkg/dedup/chunk_iter.go WITH repo_patches/C40-fix.patch):
+   per aggregate the chunks' samples are merged by the penalty iterator, the merged
+   count aggregate is re-chunked every seriesToChunkEncoderSplit (Gen/C40.v: 120)
+   samples, and for every such chunk toChunk fills the other four aggregates from
+   iterators shared between the output chunks. *)
 From Coq Require Import ZArith List Bool.
-From Verif Require Import Lib.Corr Lib.Dedup_Iter Gen.C40 Model.C40.
+Import ListNotations.
+From Verif Require Import Lib.Corr Lib.Dedup_Iter Lib.Dedup_Refine Gen.C40 Model.C40.
+From Verif Require Import Proofs.C40_Chunk Proofs.C40.
+Open Scope Z_scope.
+
+(* Source facts: the shape of the repaired toChunk (peek instead of consume). *)
 Theorem C40_source_shape : to_chunk_shape_ok = true.
-Proof. vm_compute. reflexivity. Qed.
+Proof. exact source_shape. Qed.
 Print Assumptions C40_source_shape.
+
+(* toChunk on a shared iterator that reads the stream R (any contract-satisfying
+   iterator, in particular the penalty merge of any number of chunks): it yields
+   the samples of R up to maxTime that are not before minTime, and leaves the
+   iterator reading the rest of R from the first sample beyond maxTime — no
+   sample is consumed without being written. *)
+Theorem C40_to_chunk_keeps_lookahead : forall counter st R mint maxt,
+  areads st R ->
+  exists st', to_chunk counter st mint maxt = (st', chunk_of counter (keep_ge mint (take_le maxt R)))
+              /\ areads st' (drop_le maxt R).
+Proof. exact to_chunk_spec. Qed.
+Print Assumptions C40_to_chunk_keeps_lookahead.
+
+(* The property: for every group of two or more well-formed downsampled chunks
+   (all five aggregates at the count aggregate's strictly increasing timestamps,
+   the counter with its repeated last timestamp; any lengths, offsets, gaps,
+   any number of output chunks) every output chunk has, in sum, min and max, a
+   sample at exactly the timestamps of its count aggregate, and in counter those
+   plus the repeated last one. *)
+Theorem C40_every_timestamp : forall base o1 others,
+  well_formed base -> well_formed o1 -> Forall well_formed others ->
+  exists out, merge_group base (o1 :: others) = Some out /\ forallb ochunk_ok out = true.
+Proof. exact every_timestamp. Qed.
+Print Assumptions C40_every_timestamp.
+
+(* Wherever the check finds model = implementation on a case, the predicate it
+   evaluates on the implementation's own output follows. *)
+Theorem C40_corr_implies_pred : forall c,
+  corr_ok c = true ->
+  (exists b o1 o, case_input c = Some (b, o1 :: o)) ->
+  pred_ok c = true.
+Proof. exact corr_implies_pred. Qed.
+Print Assumptions C40_corr_implies_pred.
+
+(* Non-vacuity: two overlapping chunks of 100 and 90 samples (5 min resolution,
+   shifted by 2 min) merge into one output chunk; chunks of 130 and 150 samples
+   overlapping by 80 merge into two output chunks of 120 and 79 samples; every
+   aggregate is complete in each. *)
+Definition ex_chunk (start : Z) (n : nat) (v : Z) : achunk :=
+  let tl := map (fun k => start + 300000 * Z.of_nat k) (seq 0 n) in
+  let mk := fun d => map (fun t => (t, v + d)) tl in
+  [Some (mk 0); Some (mk 1); Some (mk 2); Some (mk 3); Some (mk 4 ++ [(last tl 0, v + 5)])].
+
+Example C40_nonvacuous :
+  let base := ex_chunk 1600000000000 100 10 in
+  let other := ex_chunk 1600000120000 90 20 in
+  wf_chunk base = true /\ wf_chunk other = true /\
+  match merge_group base [other] with
+  | Some out => length out = 1%nat /\ forallb ochunk_ok out = true
+  | None => False
+  end /\
+  match merge_group (ex_chunk 1600000000000 130 10) [ex_chunk 1600015120000 150 20] with
+  | Some out => map (fun oc => length (match nth 1 (snd oc) None with Some l => l | None => [] end)) out = [120; 79]%nat
+                /\ forallb ochunk_ok out = true
+  | None => False
+  end.
+Proof. vm_compute. repeat split; reflexivity. Qed.
